@@ -51,6 +51,9 @@ func runC19(c *Cfg) {
 	case strings.HasPrefix(c.Replay, "hist:"):
 		c19HistChild(strings.TrimPrefix(c.Replay, "hist:"))
 		return
+	case strings.HasPrefix(c.Replay, "proto:"):
+		c19ProtoChild(strings.TrimPrefix(c.Replay, "proto:"))
+		return
 	case strings.HasPrefix(c.Replay, "types:"):
 		c19TypeChild(strings.TrimPrefix(c.Replay, "types:"))
 		return
@@ -99,6 +102,8 @@ func runC19(c *Cfg) {
 	fmt.Fprintf(os.Stderr, "C19: concurrent phase done after %v\n", time.Since(t0).Round(time.Millisecond))
 
 	c19TypeStress(c, root.Sub())
+	c19ProtoStress(c, root.Sub())
+	fmt.Fprintf(os.Stderr, "C19: protocol stress + let rounds done after %v\n", time.Since(t0).Round(time.Millisecond))
 	c19RaceStage(c, rb, root.Sub())
 	fmt.Fprintf(os.Stderr, "C19: done after %v\n", time.Since(t0).Round(time.Millisecond))
 }
@@ -433,6 +438,44 @@ func c19RunCase(cs *c19Case, sh *c19Shared, timeout time.Duration) []string {
 		return nil
 	}
 	return res
+}
+
+// c19ProtoStress runs the direct protocol stress and the let rounds (c19_proto.go) in a
+// child process and turns its predicates into Direct records.
+func c19ProtoStress(c *Cfg, r *Rng) {
+	dir := filepath.Join(c.Out, "proto")
+	os.MkdirAll(dir, 0o777)
+	outp := filepath.Join(dir, "out.json")
+	scale := c.Pick(1, 10)
+	if c.Focus {
+		scale *= 3
+	}
+	cmd := exec.Command(os.Args[0], "C19", "-replay", fmt.Sprintf("proto:%d:%d:%s", r.U64()%1000000007, scale, outp), "-out", dir, "-tier", c.Tier)
+	var eb bytes.Buffer
+	cmd.Stderr = &eb
+	err := cmd.Run()
+	var out c19ProtoOut
+	ob, rerr := os.ReadFile(outp)
+	if err != nil || rerr != nil || json.Unmarshal(ob, &out) != nil {
+		head := c19Head(eb.String(), 3000)
+		cls := "crash-protocols"
+		if strings.Contains(head, "fatal error: concurrent map") {
+			cls = "fatal-concurrent-map"
+		}
+		c.Direct(false, cls, "the direct stress of the runtime's shared-state functions (NextUniqueID, AddInst/LoadInstance, LoadBuiltin, SetBuildData, StoreType) or the concurrent let compilation crashed the process",
+			map[string]any{"err": fmt.Sprint(err), "stderr_head": head, "scale": scale})
+		return
+	}
+	for _, f := range out.Fails {
+		c.Direct(false, f.Class, f.What, f.Detail)
+	}
+	c.mu.Lock()
+	for k, n := range out.Checks {
+		c.counts["proto."+k] += n
+		c.nDirect += n
+	}
+	c.nDirect -= len(out.Fails)
+	c.mu.Unlock()
 }
 
 // c19TypeStress runs the type-cache stress in a child process.
@@ -1020,6 +1063,18 @@ func c19RaceChild(c *Cfg, spec string) {
 		}
 		close(start)
 		wg.Wait()
+	}
+	// the counters / import maps and concurrent let compilation under the detector
+	{
+		po := &c19ProtoOut{Checks: map[string]int{}}
+		c19UniqueIDs(po, 8, 2000)
+		c19ImportMaps(po, r, 2)
+		c19Builtin(po, 1)
+		c19TypeStore(po, r, 2)
+		c19LetRounds(po, 3, 8, 3)
+		for _, f := range po.Fails {
+			fmt.Fprintf(os.Stderr, "C19-RACE-CHILD: predicate %s failed: %s\n", f.Class, f.What)
+		}
 	}
 	n := 0
 	var mu sync.Mutex
